@@ -21,10 +21,12 @@ pub struct Knobs {
     pub max_cel: u16,
     /// tilemap cels only at tile-aligned offsets (C08's quantifier); C02 also composes unaligned ones
     pub align_tiles: bool,
+    /// tilemaps whose pixel extent exceeds 16 bits in one direction (long thin tiles x many tiles) on a small canvas
+    pub bigmap: bool,
 }
 
 pub fn knobs(profile: &str) -> Knobs {
-    let base = Knobs { max_wh: 4, max_layers: 3, max_frames: 3, depths: vec![32, 16, 8], tiles: true, meta: true, extremes: true, groups: true, links: true, max_cel: 4, align_tiles: true };
+    let base = Knobs { max_wh: 4, max_layers: 3, max_frames: 3, depths: vec![32, 16, 8], tiles: true, meta: true, extremes: true, groups: true, links: true, max_cel: 4, align_tiles: true, bigmap: false };
     match profile {
         "struct" => Knobs { max_wh: 3, max_layers: 6, max_frames: 5, max_cel: 2, ..base },
         "render" => Knobs { max_wh: 6, max_layers: 5, max_frames: 3, meta: false, max_cel: 7, align_tiles: false, ..base },
@@ -37,6 +39,9 @@ pub fn knobs(profile: &str) -> Knobs {
         "huge" => Knobs { max_wh: 65535, max_layers: 3, max_frames: 2, max_cel: 3, meta: false, ..base },
         // cels with more than 65535 pixels (row offsets beyond 16 bits), dragged onto a small canvas by a negative offset
         "bigcel" => Knobs { max_wh: 5, max_layers: 2, max_frames: 1, meta: false, tiles: false, links: false, groups: false, max_cel: 320, ..base },
+        // one or two layers only: almost every frame has exactly one contributing layer (C19's second clause)
+        "single" => Knobs { max_wh: 6, max_layers: 2, max_frames: 3, meta: false, max_cel: 5, align_tiles: false, ..base },
+        "bigmap" => Knobs { max_wh: 6, max_layers: 2, max_frames: 1, meta: false, links: false, groups: false, bigmap: true, ..base },
         "long" => Knobs { max_wh: 2, max_layers: 3, max_frames: 3000, max_cel: 2, tiles: false, ..base },
         "wide" => Knobs { max_wh: 2, max_layers: 300, max_frames: 2, max_cel: 2, tiles: false, ..base },
         _ => base,
@@ -51,7 +56,16 @@ fn byte_b(r: &mut StdRng) -> u8 {
         r.gen()
     }
 }
+thread_local! {
+    /// per-sprite naming style: 0 = mixed pool, 1 = every name empty (minimal-size records), 2 = every name one byte
+    static NAME_STYLE: std::cell::Cell<u8> = const { std::cell::Cell::new(0) };
+}
 fn name(r: &mut StdRng) -> Vec<u8> {
+    match NAME_STYLE.with(|c| c.get()) {
+        1 => return vec![],
+        2 => return vec![b'a' + r.gen_range(0..3u8)],
+        _ => {}
+    }
     if r.gen_bool(0.03) {
         // longer than 255 bytes, with multi-byte characters at varying alignments
         let n = r.gen_range(256..400);
@@ -96,7 +110,13 @@ fn offs(r: &mut StdRng, canvas: u16, cel: u16, extremes: bool) -> i16 {
     if extremes {
         cands.extend([-32768, 32767, 32767 - w]);
     }
-    let v = if r.gen_bool(0.6) { 0.max(r.gen_range(0..=c.max(1)) - r.gen_range(0..=w)) } else { *cands.choose(r).unwrap() };
+    let v = match r.gen_range(0..20) {
+        0..=7 => 0.max(r.gen_range(0..=c.max(1)) - r.gen_range(0..=w)),
+        // hanging over the low edge (top / left) by every possible amount, or over the high edge
+        8..=12 if w > 1 => -r.gen_range(1..w),
+        13..=15 if w > 1 => c - w + r.gen_range(1..w),
+        _ => *cands.choose(r).unwrap(),
+    };
     v.clamp(-32768, 32767) as i16
 }
 
@@ -104,12 +124,20 @@ struct Ctx {
     depth: u16,
     tidx: u8,
     pal_ids: Vec<u32>,
+    /// pixel values v for which the palette also has an entry v + 256k (k >= 1)
+    alias: Vec<u8>,
 }
 fn pixel(r: &mut StdRng, c: &Ctx) -> Vec<u8> {
     match c.depth {
         32 => vec![byte_b(r), byte_b(r), byte_b(r), byte_b(r)],
         16 => vec![byte_b(r), byte_b(r)],
-        _ => vec![if r.gen_bool(0.25) && c.pal_ids.contains(&(c.tidx as u32)) { c.tidx } else { *c.pal_ids.choose(r).unwrap() as u8 }],
+        _ => vec![if r.gen_bool(0.25) && c.pal_ids.contains(&(c.tidx as u32)) {
+            c.tidx
+        } else if !c.alias.is_empty() && r.gen_bool(0.5) {
+            *c.alias.choose(r).unwrap()
+        } else {
+            *c.pal_ids.choose(r).unwrap() as u8
+        }],
     }
 }
 fn transparent_pixel(c: &Ctx) -> Vec<u8> {
@@ -123,7 +151,19 @@ fn store(r: &mut StdRng) -> String {
     ["z0", "z1", "z6", "z9", "stored"].choose(r).unwrap().to_string()
 }
 
+/// entity counts: usually a handful; sometimes a few dozen (thresholds of size heuristics sit there); rarely beyond a byte
+fn count(r: &mut StdRng, small: std::ops::Range<usize>, extremes: bool) -> usize {
+    if extremes && r.gen_bool(0.03) {
+        r.gen_range(256..270)
+    } else if extremes && r.gen_bool(0.08) {
+        r.gen_range(5..48)
+    } else {
+        r.gen_range(small)
+    }
+}
+
 pub fn gen_sprite(r: &mut StdRng, k: &Knobs) -> Program {
+    NAME_STYLE.with(|c| c.set(if !k.extremes { 0 } else { *[0u8, 0, 0, 0, 0, 0, 0, 1, 1, 2].choose(r).unwrap() }));
     let depth = *k.depths.choose(r).unwrap();
     let dim = |r: &mut StdRng| -> u16 {
         if k.max_wh > 1000 {
@@ -145,10 +185,11 @@ pub fn gen_sprite(r: &mut StdRng, k: &Knobs) -> Program {
     let nframes = if k.max_frames > 100 { k.max_frames - r.gen_range(0..10) } else { r.gen_range(1..=k.max_frames) };
     let mut udc = 0u32;
     let mut f0: Vec<Chunk> = vec![];
-    let use_tiles = k.tiles && r.gen_bool(0.5);
+    let use_tiles = k.tiles && (k.bigmap || r.gen_bool(0.5));
 
     // palette
     let mut pal_ids: Vec<u32> = vec![];
+    let mut alias: Vec<u8> = vec![];
     let mut tidx: u8 = if r.gen_bool(0.5) { 0 } else { byte_b(r) };
     let want_pal = depth == 8 || (k.meta && r.gen_bool(0.4));
     let mut sprite_ud_done = false;
@@ -157,10 +198,15 @@ pub fn gen_sprite(r: &mut StdRng, k: &Knobs) -> Program {
         if style <= 1 {
             // new format, contiguous range first..last
             let hi = depth != 8 && r.gen_bool(0.2);
-            let first = if hi { r.gen_range(250..400u32) } else if r.gen_bool(0.6) { 0 } else { r.gen_range(0..200u32) };
-            let n = if hi && r.gen_bool(0.3) { r.gen_range(257..300u32) } else if hi { r.gen_range(1..=12u32) } else { r.gen_range(1..=12u32).min(256 - first) };
+            // indexed sprites too can carry more than 256 entries (pixels address the first 256 only)
+            let over = depth == 8 && r.gen_bool(0.25);
+            let first = if over { r.gen_range(0..3u32) } else if hi { r.gen_range(250..400u32) } else if r.gen_bool(0.6) { 0 } else { r.gen_range(0..200u32) };
+            let n = if over { r.gen_range(257..300u32) } else if hi && r.gen_bool(0.3) { r.gen_range(257..300u32) } else if hi { r.gen_range(1..=12u32) } else { r.gen_range(1..=12u32).min(256 - first) };
             let last = first + n - 1;
-            pal_ids = (first..=last).collect();
+            pal_ids = (first..=last).filter(|i| depth != 8 || *i < 256).collect();
+            if depth == 8 {
+                alias = (first..=last).filter(|i| *i >= 256 && (first..=last).contains(&(*i % 256))).map(|i| (i % 256) as u8).collect();
+            }
             let entries = (0..n)
                 .map(|_| {
                     let named = r.gen_bool(0.2);
@@ -219,7 +265,7 @@ pub fn gen_sprite(r: &mut StdRng, k: &Knobs) -> Program {
         }
     }
     let _ = sprite_ud_done;
-    let cx = Ctx { depth, tidx, pal_ids };
+    let cx = Ctx { depth, tidx, pal_ids, alias };
 
     if k.meta && r.gen_bool(0.3) {
         let pos = r.gen_range(0..=f0.len());
@@ -230,7 +276,7 @@ pub fn gen_sprite(r: &mut StdRng, k: &Knobs) -> Program {
         }
     }
     if k.meta && r.gen_bool(0.4) {
-        let n = r.gen_range(1..4);
+        let n = count(r, 1..4, k.extremes) as u32;
         let entries = (0..n).map(|i| ExtE { id: if r.gen_bool(0.2) { u32x(r) } else { U32S(i + 1) }, etype: r.gen_range(0..4), name: name(r) }).collect::<Vec<_>>();
         // ids must be unique (out of contract otherwise)
         let mut seen = std::collections::HashSet::new();
@@ -247,8 +293,13 @@ pub fn gen_sprite(r: &mut StdRng, k: &Knobs) -> Program {
             if tilesets.iter().any(|t| t.0 == id) {
                 continue;
             }
-            let (tw, th) = if k.max_wh > 1000 && r.gen_bool(0.5) {
+            let (tw, th) = if k.bigmap {
+                *[(256u16, 1u16), (1, 256), (128, 2), (2, 128), (255, 1), (1, 300)].choose(r).unwrap()
+            } else if k.max_wh > 1000 && r.gen_bool(0.5) {
                 *[(2u16, 2u16), (255, 3), (3, 255), (16, 16), (1, 1000), (4096, 1)].choose(r).unwrap()
+            } else if r.gen_bool(0.15) {
+                // strongly non-square tiles (a width / height mix-up shows on most placements)
+                *[(1u16, 4u16), (4, 1), (2, 5), (5, 2), (1, 6), (6, 1)].choose(r).unwrap()
             } else {
                 (r.gen_range(1..=3u16), r.gen_range(1..=3u16))
             };
@@ -330,7 +381,7 @@ pub fn gen_sprite(r: &mut StdRng, k: &Knobs) -> Program {
     }
     // tags
     if k.meta && r.gen_bool(0.6) {
-        let n = if k.extremes && r.gen_bool(0.03) { r.gen_range(256..270usize) } else { r.gen_range(0..4usize) };
+        let n = count(r, 0..4, k.extremes);
         let tags: Vec<TagP> = (0..n)
             .map(|_| TagP { from: r.gen_range(0..nframes as u16), to: if r.gen_bool(0.8) { r.gen_range(0..nframes as u16) } else { r.gen() }, dir: r.gen_range(0..3), repeat: if r.gen_bool(0.5) { 0 } else { r.gen() }, color: U32S(r.gen()), name: name(r) })
             .collect();
@@ -382,9 +433,24 @@ pub fn gen_sprite(r: &mut StdRng, k: &Knobs) -> Program {
                 1 if ltypes[l] == 2 => {
                     let (_, tw, th, count) = lts[l].unwrap();
                     let lo = if r.gen_bool(0.1) { 0 } else { 1 };
-                    let mw = r.gen_range(lo..=3u16);
-                    let mh = r.gen_range(1..=3u16);
-                    let (x, y, op) = common(r, mw * tw, mh * th, tw, th);
+                    let mut mw = r.gen_range(lo..=3u16);
+                    let mut mh = r.gen_range(1..=3u16);
+                    if k.bigmap {
+                        // enough tiles for the far end to lie beyond pixel 65535
+                        if tw >= th {
+                            mw = (65536 / tw as u32) as u16 + r.gen_range(1..4);
+                            mh = r.gen_range(1..=2);
+                        } else {
+                            mh = (65536 / th as u32) as u16 + r.gen_range(1..4);
+                            mw = r.gen_range(1..=2);
+                        }
+                    }
+                    let (mut x, mut y, op) = common(r, mw.saturating_mul(tw), mh.saturating_mul(th), tw, th);
+                    if k.bigmap {
+                        // near the origin: the far tiles are off canvas unless their coordinates wrap
+                        x = if tw >= th { -(tw as i16) * r.gen_range(0..2) } else { 0 };
+                        y = if th > tw { -(th as i16) * r.gen_range(0..2) } else { 0 };
+                    }
                     let tiles = (0..(mw as usize * mh as usize)).map(|_| U32N(r.gen_range(0..count) | if r.gen_bool(0.15) { 1 << 30 } else { 0 } | if r.gen_bool(0.1) { 1 << 29 } else { 0 })).collect();
                     // mw = 0 makes an empty map (0 x mh): still well formed (no tiles)
                     Some(CelC { layer: l as u16, x, y, opacity: op, ctype: 3, w: mw, h: mh, tiles, store: store(r), ..Default::default() })
@@ -428,10 +494,10 @@ pub fn gen_sprite(r: &mut StdRng, k: &Knobs) -> Program {
     // slices (any frame; Aseprite writes them in frame 0)
     let mut slices: Vec<Chunk> = vec![];
     if k.meta && r.gen_bool(0.5) {
-        let nslices = if k.extremes && r.gen_bool(0.03) { r.gen_range(256..262) } else { r.gen_range(1..3) };
+        let nslices = count(r, 1..3, k.extremes);
         for _ in 0..nslices {
             let flags = r.gen_range(0..4u32);
-            let keys = (0..r.gen_range(0..3))
+            let keys = (0..count(r, 0..3, k.extremes && nslices < 20))
                 .map(|_| KeyP { frame: u32x(r), x: i32x(r), y: i32x(r), w: u32x(r), h: u32x(r), s9: S9P { cx: i32x(r), cy: i32x(r), cw: u32x(r), ch: u32x(r) }, pivot: PivP { x: i32x(r), y: i32x(r) } })
                 .collect();
             slices.push(Chunk::Slice(SliceC { name: name(r), flags: U32N(flags), keys, rsv: U32S(0) }));
@@ -467,9 +533,96 @@ pub fn gen_sprite(r: &mut StdRng, k: &Knobs) -> Program {
         out_frames.push(FrameP { dur: if r.gen_bool(0.3) { *[0u16, 1, 65535].choose(r).unwrap() } else { r.gen_range(1..1000) }, chunks, ..Default::default() });
     }
     let hdr = Hdr { nframes: Some(nframes as u16), w, h, depth, tidx, pixw: 1, pixh: 1, speed: r.gen(), ncolors: r.gen(), ..Default::default() };
+    if k.meta && nframes >= 2 && nframes <= 100 && r.gen_bool(0.25) {
+        spread(r, &mut out_frames);
+    }
     let mut p = Program { hdr, frames: out_frames, trailing: vec![] };
     p.normalize();
     p
+}
+
+/// true when a chunk inserted at `at` would sit between an entity and its user data record
+fn takes_record(chunks: &[Chunk], at: usize) -> bool {
+    let mut i = at;
+    while i < chunks.len() && matches!(chunks[i], Chunk::CelExtra(_) | Chunk::Mask(_) | Chunk::Path(_) | Chunk::Profile(_)) {
+        i += 1;
+    }
+    matches!(chunks.get(i), Some(Chunk::Ud(_)))
+}
+
+/// Writers put all sprite-level chunks into frame 0, but the format lets most of them appear in any frame and the
+/// user-data context lives across frame boundaries. Move some of them (the specification defines the result for any
+/// chunk sequence; cels must still follow their layers and tilesets stay where they are).
+fn spread(r: &mut StdRng, frames: &mut [FrameP]) {
+    let nf = frames.len();
+    let is_att = |c: &Chunk| matches!(c, Chunk::Ud(_) | Chunk::Mask(_) | Chunk::Path(_) | Chunk::CelExtra(_));
+    let mut front: Vec<Chunk> = vec![]; // goes to the front of frame 1, in this order
+    match r.gen_range(0..3) {
+        0 => {
+            // the tags chunk and its records become the tail of frame 0; some of the records open frame 1
+            let f0 = &mut frames[0].chunks;
+            if let Some(ti) = f0.iter().position(|c| matches!(c, Chunk::Tags(_))) {
+                let mut end = ti + 1;
+                while end < f0.len() && is_att(&f0[end]) {
+                    end += 1;
+                }
+                let mut run: Vec<Chunk> = f0.drain(ti..end).collect();
+                let keep = r.gen_range(1..=run.len());
+                front = run.split_off(keep);
+                f0.extend(run);
+            }
+        }
+        1 => {
+            // the trailing slices (with their records) are cut somewhere: the rest opens frame 1
+            let f0 = &mut frames[0].chunks;
+            if let Some(si) = f0.iter().position(|c| matches!(c, Chunk::Slice(_))) {
+                if f0[si..].iter().all(|c| matches!(c, Chunk::Slice(_)) || is_att(c)) {
+                    let at = r.gen_range(si..=f0.len());
+                    front = f0.split_off(at);
+                }
+            }
+        }
+        _ => {
+            // the last chunk of frame 0 is an entity whose record opens frame 1 (cel, slice, layer ...)
+            let f0 = &mut frames[0].chunks;
+            if matches!(f0.last(), Some(Chunk::Ud(_))) && f0.len() >= 2 && !matches!(f0[f0.len() - 2], Chunk::Ud(_)) {
+                front = vec![f0.pop().unwrap()];
+            }
+        }
+    }
+    for (i, c) in front.into_iter().enumerate() {
+        frames[1].chunks.insert(i, c);
+    }
+    // sprite-level chunks that carry no record move to (the front of) a later frame
+    let has_legacy = frames[0].chunks.iter().any(|c| matches!(c, Chunk::OldPal04(_) | Chunk::OldPal11(_)));
+    let mut i = 0;
+    while i < frames[0].chunks.len() {
+        let movable = match &frames[0].chunks[i] {
+            Chunk::ExtFiles(_) | Chunk::Profile(_) => true,
+            Chunk::Pal(_) => !has_legacy,
+            _ => false,
+        };
+        let next_is_ud = matches!(frames[0].chunks.get(i + 1), Some(Chunk::Ud(_)));
+        let prev_is_legacy = i > 0 && matches!(frames[0].chunks[i - 1], Chunk::OldPal04(_) | Chunk::OldPal11(_));
+        if movable && !next_is_ud && !prev_is_legacy && r.gen_bool(0.5) {
+            let c = frames[0].chunks.remove(i);
+            let f = r.gen_range(1..nf);
+            // not in front of a record that opens the frame
+            let at = frames[f].chunks.iter().position(|c| !matches!(c, Chunk::Ud(_))).unwrap_or(frames[f].chunks.len());
+            frames[f].chunks.insert(at, c);
+        } else {
+            i += 1;
+        }
+    }
+    // a legacy palette chunk repeated in a later frame (writers of old versions repeat it in every frame)
+    if has_legacy && r.gen_bool(0.5) {
+        let c = frames[0].chunks.iter().find(|c| matches!(c, Chunk::OldPal04(_) | Chunk::OldPal11(_))).unwrap().clone();
+        let f = r.gen_range(1..nf);
+        let at = frames[f].chunks.iter().position(|c| !matches!(c, Chunk::Ud(_))).unwrap_or(frames[f].chunks.len());
+        if !takes_record(&frames[f].chunks, at) {
+            frames[f].chunks.insert(at, c);
+        }
+    }
 }
 
 // ---------------------------------------------------------------------------------------
@@ -586,24 +739,52 @@ pub fn variant(r: &mut StdRng, p: &Program, which: usize) -> (Program, String) {
             let has_new = q.frames.iter().any(|f| f.chunks.iter().any(|c| matches!(c, Chunk::Pal(_))));
             let has_old = q.frames.iter().any(|f| f.chunks.iter().any(|c| matches!(c, Chunk::OldPal04(_) | Chunk::OldPal11(_))));
             if has_new && !has_old && !q.frames.is_empty() {
-                let f = &mut q.frames[0];
+                // the frame that holds the (first) new palette chunk
+                let fi = q.frames.iter().position(|f| f.chunks.iter().any(|c| matches!(c, Chunk::Pal(_)))).unwrap();
+                let f = &mut q.frames[fi];
                 let pos = f.chunks.iter().position(|c| matches!(c, Chunk::Pal(_))).unwrap();
                 let legacy = OldPalC { packets: vec![PacketP { skip: r.gen_range(0..3), count: 3, rgb: vec![[9, 8, 7], [6, 5, 4], [3, 2, 1]] }] };
                 // placed where a writer puts it: directly before or after the new chunk, and never
                 // between an entity and its user data (it would legitimately take the record)
                 let at = if r.gen_bool(0.5) { pos } else { pos + 1 };
-                let follows_ud = matches!(f.chunks.get(at), Some(Chunk::Ud(_)));
+                let follows_ud = takes_record(&f.chunks, at);
+                let chunk = if r.gen_bool(0.5) { Chunk::OldPal04(legacy) } else { Chunk::OldPal11(legacy) };
                 if !follows_ud {
-                    f.chunks.insert(at, if r.gen_bool(0.5) { Chunk::OldPal04(legacy) } else { Chunk::OldPal11(legacy) });
+                    f.chunks.insert(at, chunk.clone());
                     f.pads.insert(at, 0);
+                }
+                // old writers repeat the legacy chunk in later frames: still redundant
+                let nf = q.frames.len();
+                if fi + 1 < nf && r.gen_bool(0.6) {
+                    let g = &mut q.frames[r.gen_range((fi + 1)..nf)];
+                    let at = r.gen_range(0..=g.chunks.len());
+                    if !takes_record(&g.chunks, at) {
+                        g.chunks.insert(at, chunk);
+                        g.pads.insert(at, 0);
+                    }
+                }
+            } else if has_old && q.frames.len() >= 2 {
+                // a legacy chunk is already there (alone or beside a new one): repeat it in a frame after every palette chunk
+                let c = q.frames.iter().flat_map(|f| f.chunks.iter()).find(|c| matches!(c, Chunk::OldPal04(_) | Chunk::OldPal11(_))).cloned();
+                let last_pal = q.frames.iter().rposition(|f| f.chunks.iter().any(|c| matches!(c, Chunk::Pal(_) | Chunk::OldPal04(_) | Chunk::OldPal11(_)))).unwrap();
+                let nf = q.frames.len();
+                if let (Some(c), true) = (c, last_pal + 1 < nf) {
+                    let g = &mut q.frames[r.gen_range((last_pal + 1)..nf)];
+                    let at = r.gen_range(0..=g.chunks.len());
+                    if !takes_record(&g.chunks, at) {
+                        g.chunks.insert(at, c);
+                        g.pads.insert(at, 0);
+                    }
                 }
             }
         }
         9 | 10 => {
             label = "order of cel chunks within a frame";
-            for f in &mut q.frames {
+            // a record that opens the NEXT frame belongs to the last entity of this frame: such a frame keeps its order
+            let opens_with_record: Vec<bool> = (0..q.frames.len()).map(|i| q.frames.get(i + 1).map_or(false, |g| takes_record(&g.chunks, 0))).collect();
+            for (fi, f) in q.frames.iter_mut().enumerate() {
                 // groups: a cel chunk with the non-cel chunks that follow it (its user data, cel-extra)
-                let first_cel = f.chunks.iter().position(|c| matches!(c, Chunk::Cel(_)));
+                let first_cel = if opens_with_record[fi] { None } else { f.chunks.iter().position(|c| matches!(c, Chunk::Cel(_))) };
                 if let Some(start) = first_cel {
                     // only permute a maximal run in which every group starts with a cel and contains no
                     // other attachable entity (layer, slice, tags, legacy palette)
@@ -733,6 +914,7 @@ pub fn faults_cmd(args: &[String]) {
     let classes: Option<Vec<&str>> = arg(args, "--classes").map(|c| c.split(',').collect());
     // --only <prefix>: restrict field faults to fields whose name starts with the prefix (e.g. "hdr.")
     let only: Option<&str> = arg(args, "--only");
+    let maxfields: usize = arg(args, "--maxfields").and_then(|s| s.parse().ok()).unwrap_or(500);
     let mut out = Out::new(arg(args, "--out").unwrap_or("-"));
     let mut r = StdRng::seed_from_u64(seed ^ 0xfa17);
     let mut all: Vec<(Value, Vec<u8>)> = vec![];
@@ -746,8 +928,19 @@ pub fn faults_cmd(args: &[String]) {
         match kind {
             "fields" => {
                 let enc = enc.expect("fields faults need a program");
-                for f in &enc.fields {
+                // sprites with hundreds of entities have thousands of fields: all header and frame-header fields, and a
+                // seeded sample of the chunk fields (cap per sprite), so that the campaign's size stays proportional to
+                // the number of seeds
+                let chunk_fields: Vec<usize> = enc.fields.iter().enumerate().filter(|(_, f)| f.name.split('.').nth(1).map_or(false, |s| s.starts_with('c'))).map(|(i, _)| i).collect();
+                let mut keep: std::collections::HashSet<usize> = chunk_fields.iter().copied().collect();
+                if chunk_fields.len() > maxfields {
+                    keep = chunk_fields.choose_multiple(&mut r, maxfields).copied().collect();
+                }
+                for (fi, f) in enc.fields.iter().enumerate() {
                     if f.width == 0 {
+                        continue;
+                    }
+                    if f.name.split('.').nth(1).map_or(false, |s| s.starts_with('c')) && !keep.contains(&fi) {
                         continue;
                     }
                     if let Some(pfx) = only {
@@ -764,8 +957,8 @@ pub fn faults_cmd(args: &[String]) {
                     for v in boundary_values(f.width, cur) {
                         let patch: Vec<u8> = (0..f.width).map(|i| ((v >> (8 * i)) & 0xFF) as u8).collect();
                         let meta = json!({"gen": "g5a", "field": f.name, "class": f.class, "value": v.to_string(), "was": cur.to_string(), "inflated": v > cur});
-                        if mode == "bytes" {
-                            // compact form: the patched bytes themselves (the trace carries them to TLC anyway)
+                        if mode != "full" {
+                            // compact form: the patched bytes themselves (only mode "full" needs the program for chunk events)
                             let mut b = bytes.clone();
                             for (i, x) in patch.iter().enumerate() {
                                 if f.off + i < b.len() {
@@ -810,18 +1003,36 @@ pub fn faults_cmd(args: &[String]) {
                 // multi-field: the frame's byte budget set to its maximum together with each chunk size boundary value
                 let enc = enc.expect("framepairs faults need a program");
                 let nb: Vec<&Field> = enc.fields.iter().filter(|f| f.name.ends_with(".nbytes")).collect();
-                for f in enc.fields.iter().filter(|f| f.name.ends_with(".size")) {
+                // ... and together with the frame's own chunk counts (the budget bounds what a count can make the loader do)
+                let mut cands: Vec<&Field> = enc.fields.iter().filter(|f| f.name.ends_with(".size") || f.name.ends_with(".oldn") || f.name.ends_with(".newn")).collect();
+                if cands.len() > 60 {
+                    let counts: Vec<&Field> = cands.iter().copied().filter(|f| !f.name.ends_with(".size")).take(20).collect();
+                    let mut sizes: Vec<&Field> = cands.iter().copied().filter(|f| f.name.ends_with(".size")).collect();
+                    sizes.shuffle(&mut r);
+                    sizes.truncate(40);
+                    cands = counts.into_iter().chain(sizes).collect();
+                }
+                for f in cands {
                     let frame = f.name.split('.').next().unwrap_or("");
                     let Some(fb) = nb.iter().find(|x| x.name == format!("{}.nbytes", frame)) else { continue };
-                    let cur = read_le(&bytes, f.off, 4);
-                    for v in boundary_values(4, cur) {
+                    let cur = read_le(&bytes, f.off, f.width);
+                    for v in boundary_values(f.width, cur) {
                         for fv in [0xFFFF_FFFFu32, 0x7FFF_FFFF] {
-                            let mut cc = c.clone();
-                            cc["id"] = json!(format!("{}|{}={}&{}={}", id, fb.name, fv, f.name, v));
-                            cc["mode"] = json!(mode);
-                            cc["patch"] = json!([{"off": fb.off, "bytes": fv.to_le_bytes()}, {"off": f.off, "bytes": (v as u32).to_le_bytes()}]);
-                            cc["meta"] = json!({"gen": "g5a2", "fields": [fb.name, f.name], "values": [fv.to_string(), v.to_string()]});
-                            out.ev(&cc);
+                            let meta = json!({"gen": "g5a2", "fields": [fb.name, f.name], "values": [fv.to_string(), v.to_string()]});
+                            let cid = format!("{}|{}={}&{}={}", id, fb.name, fv, f.name, v);
+                            if mode != "full" {
+                                let mut b = bytes.clone();
+                                b[fb.off..fb.off + 4].copy_from_slice(&fv.to_le_bytes());
+                                b[f.off..f.off + f.width].copy_from_slice(&(v as u32).to_le_bytes()[..f.width]);
+                                out.ev(&json!({"id": cid, "mode": mode, "hex": hex_encode(&b), "meta": meta}));
+                            } else {
+                                let mut cc = c.clone();
+                                cc["id"] = json!(cid);
+                                cc["mode"] = json!(mode);
+                                cc["patch"] = json!([{"off": fb.off, "bytes": fv.to_le_bytes()}, {"off": f.off, "bytes": (v as u32).to_le_bytes()[..f.width]}]);
+                                cc["meta"] = meta;
+                                out.ev(&cc);
+                            }
                         }
                     }
                 }
